@@ -290,6 +290,10 @@ def run_gamma0(case, res):
         bump(res, 'discarded_numerical_warnings')
         return
     Sa, Sb = np.asarray(oa[1]), np.asarray(ob[1])
+    cut = np.nonzero(~(np.minimum(Sa, Sb) >= 5e-3 * N))[0]
+    if len(cut):        # singular closures once S is exhausted (see C06): compare up to there
+        Sa, Sb = Sa[:int(cut[0]) + 1], Sb[:int(cut[0]) + 1]
+        bump(res, 'singular_tail_cases_truncated')
     bump(res, 'gamma0_pairs_compared')
     d = float(np.max(np.abs(Sa - Sb))) / N
     setmax(res, 'max_gamma0_distance_over_N', d)
